@@ -95,13 +95,14 @@ def main():
              "|---|---|---|---|---|---|"] + rows
     text = open(os.path.join(VERIF, "DESIGN.md"), encoding="utf-8").read()
     head = text[: text.index("## 8. Seeded changes")]
+    tail = text[text.index("## 9. "):] if "## 9. " in text else ""
     body = ("## 8. Seeded changes and which check catches them\n\n"
             "Each seed was written by an independent sub-agent that saw only the property text and a scratch worktree; it is kept only after\n"
             "`tools/seedcheck.sh` confirmed on a scratch worktree of the current HEAD that the patch applies, the 392 tests still pass, and the\n"
             "demonstration fails with the change and passes without it. `detected by` = registered quick checks that exit 1 on that copy.\n"
             "Seeds whose first run was missed are marked with what was strengthened (the check now catches them; nothing was loosened).\n\n"
             + "\n".join(table) + "\n")
-    open(os.path.join(VERIF, "DESIGN.md"), "w", encoding="utf-8").write(head + body)
+    open(os.path.join(VERIF, "DESIGN.md"), "w", encoding="utf-8").write(head + body + ("\n" + tail if tail else ""))
     n = len(rows)
     det = sum(1 for r in rows if "**none**" not in r)
     print("%d seeds, %d detected" % (n, det))
